@@ -574,3 +574,352 @@ func derivesFromPosParam(f *idxFacts, v ssa.Value) bool {
 	walk(v, 0)
 	return found
 }
+
+// ---- R101: every write into the upper-casing buffer is in bounds and no rune is lost ----
+
+func init() {
+	register(&Rule{ID: "R101", Name: "UPPER-BUFFER", Floor: 6,
+		Text: "in the zero-alloc ToUpper (internal/strings): (a) the buffer chosen at the first changed rune is at least len(s)+utf8.UTFMax long on both branches - the caller's buffer only under a dominating test `len(*bP) >= len(s)+UTFMax`, otherwise a make of exactly that expression; (b) every single-byte store b[n] = byte(r) is dominated by a test n < len(b), or follows n = copy(b, prefix of s) into the buffer of (a); (c) every utf8.EncodeRune(b[n:], r) either follows the sizing of (a) directly or is dominated by the branch on `n+UTFMax >= len(b)`, whose true side replaces b by a make of at least twice its length into which b[:n] is copied first; (d) under the test `r >= 0` (compared with 0 by >=, never >) every path writes the rune exactly once - the byte store or the EncodeRune; a rune is neither dropped nor written twice",
+		Run:  runR101})
+}
+
+func runR101(c *Ctx) {
+	p := c.P
+	fn := p.anchorUpper()
+	if fn == nil {
+		c.undecided("internal/strings.ToUpper", "-", "not found")
+		return
+	}
+	fnm := fname(fn)
+	sP := fn.Params[1]
+	isLenOf := func(v ssa.Value, of func(ssa.Value) bool) bool {
+		call, ok := v.(*ssa.Call)
+		return ok && builtinName(call) == "len" && of(call.Call.Args[0])
+	}
+	isS := func(v ssa.Value) bool {
+		// the string parameter or a phi/slice of it (s = s[i:])
+		seen := map[ssa.Value]bool{}
+		var walk func(v ssa.Value, d int) bool
+		walk = func(v ssa.Value, d int) bool {
+			if seen[v] || d > 5 {
+				return false
+			}
+			seen[v] = true
+			switch t := v.(type) {
+			case *ssa.Parameter:
+				return t == sP
+			case *ssa.Phi:
+				for _, e := range t.Edges {
+					if walk(e, d+1) {
+						return true
+					}
+				}
+			case *ssa.Slice:
+				return walk(t.X, d+1)
+			}
+			return false
+		}
+		return walk(v, 0)
+	}
+	isNeed := func(v ssa.Value) bool { // len(s) + UTFMax
+		add, ok := v.(*ssa.BinOp)
+		if !ok || add.Op != token.ADD {
+			return false
+		}
+		k, isK := constInt(add.Y)
+		return isK && k == 4 && isLenOf(add.X, isS)
+	}
+	// (a) first buffer
+	var firstBuf *ssa.Phi
+	eachInstr(fn, func(in ssa.Instruction) {
+		phi, ok := in.(*ssa.Phi)
+		if !ok || len(phi.Edges) != 2 {
+			return
+		}
+		if _, isSl := phi.Type().Underlying().(*types.Slice); !isSl {
+			return
+		}
+		hasMake := false
+		for _, e := range phi.Edges {
+			if _, ok := e.(*ssa.MakeSlice); ok {
+				hasMake = true
+			}
+		}
+		if hasMake && firstBuf == nil {
+			firstBuf = phi
+		}
+	})
+	if firstBuf == nil {
+		c.undecided(fnm+"|first buffer", p.pos(fn.Pos()), "the choice between the caller's buffer and a new one was not found")
+		return
+	}
+	{
+		key := fnm + "|first buffer"
+		var problems []string
+		for i, e := range firstBuf.Edges {
+			switch t := e.(type) {
+			case *ssa.MakeSlice:
+				if !isNeed(t.Len) {
+					problems = append(problems, "the new buffer is allocated with "+describe(t.Len)+", not len(s)+utf8.UTFMax")
+				}
+			default:
+				// the caller's buffer: guarded
+				okG := false
+				pred := firstBuf.Block().Preds[i]
+				for _, g := range dominatingGuards(pred) {
+					b, ok := g.Cond.(*ssa.BinOp)
+					if !ok {
+						continue
+					}
+					if b.Op == token.GEQ && g.Val && isNeed(b.Y) && isLenOf(b.X, func(v ssa.Value) bool { return true }) {
+						okG = true
+					}
+					if b.Op == token.LSS && !g.Val && isNeed(b.Y) && isLenOf(b.X, func(v ssa.Value) bool { return true }) {
+						okG = true
+					}
+				}
+				// the guard may be the branch that selects this very edge
+				if iff, ok := pred.Instrs[len(pred.Instrs)-1].(*ssa.If); ok && !okG {
+					if b, ok := iff.Cond.(*ssa.BinOp); ok && isNeed(b.Y) {
+						if b.Op == token.GEQ && pred.Succs[0] == firstBuf.Block() || b.Op == token.LSS && pred.Succs[1] == firstBuf.Block() {
+							okG = true
+						}
+					}
+				}
+				if !okG {
+					problems = append(problems, "the caller's buffer is used without a dominating test that it holds len(s)+utf8.UTFMax bytes")
+				}
+			}
+		}
+		if len(problems) == 0 {
+			c.ok(key, p.instrPos(firstBuf), "at least len(s)+UTFMax bytes on both branches")
+		} else {
+			c.bad(key, p.instrPos(firstBuf), strings.Join(problems, "; "))
+		}
+	}
+	// collect writes
+	type write struct {
+		in     ssa.Instruction
+		single bool
+		pos    ssa.Value // n
+	}
+	var writes []write
+	eachInstr(fn, func(in ssa.Instruction) {
+		switch t := in.(type) {
+		case *ssa.Store:
+			if ia, ok := t.Addr.(*ssa.IndexAddr); ok {
+				if sl, ok := ia.X.Type().Underlying().(*types.Slice); ok {
+					if b, ok := sl.Elem().Underlying().(*types.Basic); ok && b.Kind() == types.Byte {
+						writes = append(writes, write{in, true, ia.Index})
+					}
+				}
+			}
+		case *ssa.Call:
+			if isFuncNamed(calleeObj(t), "unicode/utf8", "", "EncodeRune") {
+				var n ssa.Value
+				if sl, ok := t.Call.Args[0].(*ssa.Slice); ok {
+					n = sl.Low
+				}
+				writes = append(writes, write{in, false, n})
+			}
+		}
+	})
+	afterSizing := func(b *ssa.BasicBlock) bool {
+		// the position is the result of copy(b, s[:i]) into the first buffer: n <= i < len(s) <= len(b) - UTFMax
+		return firstBuf.Block().Dominates(b) && !inAnyLoopAfter(fn, firstBuf.Block(), b)
+	}
+	nb, ns := 0, 0
+	for _, w := range writes {
+		if w.single {
+			nb++
+			key := fmt.Sprintf("%s|byte store", fnm)
+			ok := false
+			for _, g := range dominatingGuards(w.in.Block()) {
+				if b, isB := g.Cond.(*ssa.BinOp); isB && b.Op == token.LSS && g.Val && b.X == w.pos && isLenOf(b.Y, func(ssa.Value) bool { return true }) {
+					ok = true
+				}
+			}
+			if ok {
+				c.ok(key, p.instrPos(w.in), "dominated by n < len(b)")
+			} else if afterSizing(w.in.Block()) {
+				c.ok(key, p.instrPos(w.in), "right after the buffer was sized to len(s)+UTFMax and the prefix copied")
+			} else {
+				c.bad(key, p.instrPos(w.in), "a byte is stored at b[n] without a dominating test n < len(b)")
+			}
+			continue
+		}
+		ns++
+		key := fmt.Sprintf("%s|EncodeRune", fnm)
+		if afterSizing(w.in.Block()) {
+			c.ok(key, p.instrPos(w.in), "right after the buffer was sized to len(s)+UTFMax and the prefix copied")
+			continue
+		}
+		// dominated by the grow test
+		var growIf *ssa.If
+		for _, g := range dominatingGuards(w.in.Block()) {
+			_ = g
+		}
+		for _, b := range fn.Blocks {
+			iff, ok := b.Instrs[len(b.Instrs)-1].(*ssa.If)
+			if !ok || !b.Dominates(w.in.Block()) {
+				continue
+			}
+			cmp, ok := iff.Cond.(*ssa.BinOp)
+			if !ok || cmp.Op != token.GEQ && cmp.Op != token.GTR {
+				continue
+			}
+			add, ok := cmp.X.(*ssa.BinOp)
+			if !ok || add.Op != token.ADD || add.X != w.pos {
+				continue
+			}
+			if k, isK := constInt(add.Y); isK && k == 4 && isLenOf(cmp.Y, func(ssa.Value) bool { return true }) && cmp.Op == token.GEQ {
+				growIf = iff
+			}
+		}
+		if growIf == nil {
+			c.bad(key, p.instrPos(w.in), "a rune of up to UTFMax bytes is encoded at b[n:] without the dominating capacity test `n+utf8.UTFMax >= len(b)`")
+			continue
+		}
+		// the grow branch
+		grow := growIf.Block().Succs[0]
+		var mk *ssa.MakeSlice
+		copied := false
+		for _, in := range grow.Instrs {
+			switch t := in.(type) {
+			case *ssa.MakeSlice:
+				mk = t
+			case *ssa.Call:
+				if builtinName(t) == "copy" && mk != nil && t.Call.Args[0] == ssa.Value(mk) {
+					if sl, ok := t.Call.Args[1].(*ssa.Slice); ok && sl.High == w.pos {
+						copied = true
+					}
+				}
+			}
+		}
+		var problems []string
+		if mk == nil {
+			problems = append(problems, "the `too small` branch allocates no buffer")
+		} else {
+			okLen := false
+			if mul, ok := mk.Len.(*ssa.BinOp); ok && mul.Op == token.MUL {
+				k, isK := constInt(mul.X)
+				if !isK {
+					k, isK = constInt(mul.Y)
+				}
+				if isK && k >= 2 && (isLenOf(mul.X, func(ssa.Value) bool { return true }) || isLenOf(mul.Y, func(ssa.Value) bool { return true })) {
+					okLen = true
+				}
+			}
+			if !okLen {
+				problems = append(problems, "the grown buffer has length "+describe(mk.Len)+", not at least 2*len(b)")
+			}
+			if !copied {
+				problems = append(problems, "the bytes converted so far (b[:n]) are not copied into the grown buffer")
+			}
+			// the buffer written is the grown one on that edge
+			usesGrown := false
+			if sl, ok := w.in.(*ssa.Call).Call.Args[0].(*ssa.Slice); ok {
+				if phi, ok := sl.X.(*ssa.Phi); ok {
+					for _, e := range phi.Edges {
+						if e == ssa.Value(mk) {
+							usesGrown = true
+						}
+					}
+				}
+			}
+			if !usesGrown {
+				problems = append(problems, "the rune is not encoded into the grown buffer")
+			}
+		}
+		if len(problems) == 0 {
+			c.ok(key, p.instrPos(w.in), "under the capacity test; the grow branch doubles the buffer and keeps its content")
+		} else {
+			c.bad(key, p.instrPos(w.in), strings.Join(problems, "; "))
+		}
+	}
+	if nb == 0 || ns == 0 {
+		c.undecided(fnm+"|writes", p.pos(fn.Pos()), "expected byte stores and EncodeRune calls")
+	}
+	// (d) under r >= 0 every path writes exactly once
+	eachInstr(fn, func(in ssa.Instruction) {
+		iff, ok := in.(*ssa.If)
+		if !ok {
+			return
+		}
+		cmp, ok := iff.Cond.(*ssa.BinOp)
+		if !ok {
+			return
+		}
+		k, isK := constInt(cmp.Y)
+		isR := false
+		if call, ok := cmp.X.(*ssa.Call); ok && isFuncNamed(calleeObj(call), "unicode", "", "ToUpper") {
+			isR = true
+		}
+		if !isR || !isK || cmp.Op != token.GEQ && cmp.Op != token.GTR {
+			return
+		}
+		key := fnm + "|rune written once"
+		if !(cmp.Op == token.GEQ && k == 0 || cmp.Op == token.GTR && k == -1) {
+			c.bad(key, p.instrPos(iff), fmt.Sprintf("the upper-cased rune is tested with `r %s %d`: U+0000 is a rune like any other and must be written (only negative results are skipped)", cmp.Op, k))
+			return
+		}
+		// paths from the true edge to the first block that post-dominates... : count writes until leaving the region
+		isWrite := func(b *ssa.BasicBlock) int {
+			n := 0
+			for _, w := range writes {
+				if w.in.Block() == b {
+					n++
+				}
+			}
+			return n
+		}
+		minW, maxW := 99, 0
+		seen := map[*ssa.BasicBlock]bool{}
+		var dfs func(b *ssa.BasicBlock, n int, depth int)
+		dfs = func(b *ssa.BasicBlock, n int, depth int) {
+			n += isWrite(b)
+			// region ends at a loop header, a return, or a block that stores to *bP / breaks out
+			end := len(b.Succs) == 0 || depth > 12
+			for _, li := range loopsOf(fn) {
+				if li.header == b {
+					end = true
+				}
+			}
+			if _, isRet := b.Instrs[len(b.Instrs)-1].(*ssa.Return); isRet {
+				end = true
+			}
+			if !iff.Block().Dominates(b) {
+				end = true
+			}
+			if end || seen[b] && n == 0 {
+				if n < minW {
+					minW = n
+				}
+				if n > maxW {
+					maxW = n
+				}
+				return
+			}
+			seen[b] = true
+			for _, s := range b.Succs {
+				dfs(s, n, depth+1)
+			}
+		}
+		dfs(iff.Block().Succs[0], 0, 0)
+		if minW == 1 && maxW == 1 {
+			c.ok(key, p.instrPos(iff), "every path under r >= 0 writes the rune exactly once")
+		} else {
+			c.bad(key, p.instrPos(iff), fmt.Sprintf("under r >= 0 a path writes the rune %d..%d times; it must be written exactly once (a dropped first rune or a duplicated one changes the upper-cased string)", minW, maxW))
+		}
+	})
+}
+
+// inAnyLoopAfter: b lies in a loop whose header is strictly dominated by `from` (a later loop).
+func inAnyLoopAfter(fn *ssa.Function, from, b *ssa.BasicBlock) bool {
+	for _, li := range loopsOf(fn) {
+		if from.Dominates(li.header) && li.header != from && inLoop(li, b) && !inLoop(li, from) {
+			return true
+		}
+	}
+	return false
+}
